@@ -16,7 +16,7 @@
 
 from fractions import Fraction
 from collections import OrderedDict
-from typing import List, Optional, FrozenSet, Union, cast
+from typing import List, Optional, FrozenSet, Set, Union, cast
 import unified_planning as up
 import unified_planning.environment
 from unified_planning.exceptions import UPUnreachableCodeError
@@ -206,10 +206,14 @@ class Simplifier(walkers.dag.DagWalker):
                         value_free_vars = (
                             self.environment.free_vars_oracle.get_free_variables(value)
                         )
+                        # capture check: no free variable of the value may be bound by a
+                        # quantifier inside the formula the value is substituted into
+                        others = [a for j, a in enumerate(new_arg.args) if i != j]
                         if (
                             variable.is_variable_exp()
                             and variable.variable() in vars
                             and variable.variable() not in value_free_vars
+                            and value_free_vars.isdisjoint(self._bound_variables(others))
                         ):
                             check_equality_simplification = True
                             new_arg = self.manager.And(
@@ -222,10 +226,30 @@ class Simplifier(walkers.dag.DagWalker):
                                 new_arg
                             )
                             break
+        # the eliminations (and the simplifications they enable) can remove the last
+        # occurrence of a quantified variable
+        remaining_free_vars = self.environment.free_vars_oracle.get_free_variables(
+            new_arg
+        )
+        vars = set(var for var in vars if var in remaining_free_vars)
         if vars:
             return self.manager.Exists(new_arg, *vars)
         else:
             return new_arg
+
+    @staticmethod
+    def _bound_variables(
+        expressions: List[FNode],
+    ) -> Set["up.model.variable.Variable"]:
+        """Returns the variables bound by a quantifier occurring in the given expressions."""
+        bound: Set["up.model.variable.Variable"] = set()
+        stack = list(expressions)
+        while stack:
+            e = stack.pop()
+            if e.is_exists() or e.is_forall():
+                bound.update(e.variables())
+            stack.extend(e.args)
+        return bound
 
     def walk_forall(self, expression: FNode, args: List[FNode]) -> FNode:
         assert len(args) == 1
